@@ -351,7 +351,8 @@ pub fn gen_texts(seed: u64, n: usize) -> Vec<J> {
         };
         let inputs = if r.chance(1, 3) {
             Some(r.pick(&["{\"a\": 1}", "{\"f\": {\"__blots_function\": \"(x) => x + nope\"}}", "{\"f\": {\"__blots_function\": \"x => [\"}}", "{\"f\": {\"__blots_function\": \"sum\"}}",
-                          "[1, 2]", "{\"a\": {\"b\": [null, 1e400, -0.0, \"\\u0000\"]}}", "{\"__blots_function\": \"x => x\"}", "not json", "{\"a\": 1e999}", "{\"k\": {\"__blots_function\": 5}}"]).to_string())
+                          "[1, 2]", "{\"f\": {\"__blots_function\": \"\"}}", "{\"f\": {\"__blots_function\": \" \\n\\t \"}}", "{\"a\": [{\"__blots_function\": \"\"}]}", "{\"f\": {\"__blots_function\": \"// only a comment\"}}",
+                          "{\"a\": {\"b\": [null, 1e400, -0.0, \"\\u0000\"]}}", "{\"__blots_function\": \"x => x\"}", "not json", "{\"a\": 1e999}", "{\"k\": {\"__blots_function\": 5}}"]).to_string())
         } else { None };
         out.push(json!({"kind":"text","text":text,"inputs":inputs}));
     }
